@@ -76,12 +76,46 @@ type detCase struct {
 	R      int    `json:"r"`     // runs per setting
 	Procs  []int  `json:"procs"` // GOMAXPROCS per run, cycled
 	CLI    bool   `json:"cli,omitempty"`
+	Stdin  string `json:"stdin,omitempty"`  // data on standard input (sub-check sources)
+	OutFmt string `json:"outfmt,omitempty"` // CLI: --format of the result sets ("" = CSV)
+	OutTo  string `json:"outto,omitempty"`  // CLI: --out FILE for the result sets ("" = stdout)
 }
 
 var sizeClasses = []int{5, 79, 80, 81, 159, 160, 161, 239, 240, 241, 320, 400, 1000}
 var partnerSizes = []int{1, 2, 3, 7, 40, 81, 160}
 var targetSizes = []int{5, 40, 81, 160, 241}
-var cpuSettings = []int{1, 2, 3, 4, 8, 16}
+var cpuSettings = []int{1, 2, 3, 4, 8, 16} // settings of the pinned cases and of the CLI sub-check
+
+// Sizes of t1 beyond the original classes (drawn with a lower weight: they cost more):
+// 299/300/301 straddle the file loader's prepared capacity (300 records: the record set is
+// re-allocated while the reader goroutine is still sending), 639/640/641 the size from which 8
+// goroutines are used, 1279/1280/1281 the size from which 16 goroutines are used (with at most
+// 1000 rows no task manager ever ran with more than 12 goroutines), 1700 leaves a remainder of
+// 1700 mod N rows to the last goroutine for most N.
+var sizeClassesLoader = []int{299, 300, 301}
+var sizeClasses8 = []int{639, 640, 641}
+var sizeClasses16 = []int{1279, 1280, 1281, 1700}
+
+func drawN1(t *rapid.T) int {
+	switch fw.Weighted(t, "n1Class", []int{52, 6, 6, 4}) {
+	case 0:
+		return fw.PickU(t, "n1", sizeClasses)
+	case 1:
+		return fw.PickU(t, "n1Loader", sizeClassesLoader)
+	case 2:
+		return fw.PickU(t, "n1x8", sizeClasses8)
+	}
+	return fw.PickU(t, "n1x16", sizeClasses16)
+}
+
+// drawCPUs: cpu=1 (the reference), 2 and the core count always, plus three further distinct
+// values from 3..15, so that over a run every value from 1 to 16 is used (RecordRange with 5, 6,
+// 7, 9..15 goroutines was never executed with the fixed list 1,2,3,4,8,16).
+func drawCPUs(t *rapid.T) []int {
+	mid := rapid.Permutation([]int{3, 4, 5, 6, 7, 8, 9, 10, 11, 12, 13, 14, 15}).Draw(t, "cpuMid")[:3]
+	sort.Ints(mid)
+	return append(append([]int{1, 2}, mid...), 16)
+}
 
 const maxProduct = 40000 // bound on join products (cost)
 
@@ -120,10 +154,29 @@ func csvCell(s string) string {
 	return s
 }
 
-func makeT1(r *rng, n int, gDom int) (string, []string, []string) {
+// renderCSV writes a table the way the original generator did: an empty cell is NULL.
+func renderCSV(rows [][]string) string {
 	var b strings.Builder
+	for i, r := range rows {
+		for j, c := range r {
+			if j > 0 {
+				b.WriteByte(',')
+			}
+			if i == 0 {
+				b.WriteString(c)
+			} else {
+				b.WriteString(csvCell(c))
+			}
+		}
+		b.WriteByte('\n')
+	}
+	return b.String()
+}
+
+// makeT1Rows: header row + n data rows ("" = NULL) and the columns g and h in file order.
+func makeT1Rows(r *rng, n int, gDom int) ([][]string, []string, []string) {
 	gs, hs := make([]string, n), make([]string, n)
-	b.WriteString("id,g,h,v,f,s\n")
+	rows := [][]string{{"id", "g", "h", "v", "f", "s"}}
 	ids := r.perm(n)
 	for i := 0; i < n; i++ {
 		g := fmt.Sprint(r.n(gDom))
@@ -141,29 +194,34 @@ func makeT1(r *rng, n int, gDom int) (string, []string, []string) {
 			s = ""
 		}
 		gs[i], hs[i] = g, h
-		fmt.Fprintf(&b, "%d,%s,%s,%s,%s,%s\n", ids[i]+1, g, h, v, f, csvCell(s))
+		rows = append(rows, []string{fmt.Sprint(ids[i] + 1), g, h, v, f, s})
 	}
-	return b.String(), gs, hs
+	return rows, gs, hs
 }
 
-func makeT2(r *rng, n int) string {
-	var b strings.Builder
-	b.WriteString("k,w,x\n")
+func makeT1(r *rng, n int, gDom int) (string, []string, []string) {
+	rows, gs, hs := makeT1Rows(r, n, gDom)
+	return renderCSV(rows), gs, hs
+}
+
+func makeT2Rows(r *rng, n int) [][]string {
+	rows := [][]string{{"k", "w", "x"}}
 	ks := r.perm(n)
 	for i := 0; i < n; i++ {
 		w := fmt.Sprint(r.n(4))
 		if r.pct(8) {
 			w = ""
 		}
-		fmt.Fprintf(&b, "%d,%s,%s\n", ks[i], w, csvCell(sAlphabet[r.n(len(sAlphabet))]))
+		rows = append(rows, []string{fmt.Sprint(ks[i]), w, sAlphabet[r.n(len(sAlphabet))]})
 	}
-	return b.String()
+	return rows
 }
 
-// makeT3: ids are a random subset of 1..2n (so about half of them also occur in a t1 of that size).
-func makeT3(r *rng, n int) (string, []int) {
-	var b strings.Builder
-	b.WriteString("id,v,s\n")
+func makeT2(r *rng, n int) string { return renderCSV(makeT2Rows(r, n)) }
+
+// makeT3Rows: ids are a random subset of 1..2n (so about half of them also occur in a t1 of that size).
+func makeT3Rows(r *rng, n int) ([][]string, []int) {
+	rows := [][]string{{"id", "v", "s"}}
 	ids := r.perm(2 * n)[:n]
 	for i := 0; i < n; i++ {
 		ids[i]++
@@ -171,9 +229,14 @@ func makeT3(r *rng, n int) (string, []int) {
 		if r.pct(10) {
 			v = ""
 		}
-		fmt.Fprintf(&b, "%d,%s,%s\n", ids[i], v, csvCell(sAlphabet[r.n(len(sAlphabet))]))
+		rows = append(rows, []string{fmt.Sprint(ids[i]), v, sAlphabet[r.n(len(sAlphabet))]})
 	}
-	return b.String(), ids
+	return rows, ids
+}
+
+func makeT3(r *rng, n int) (string, []int) {
+	rows, ids := makeT3Rows(r, n)
+	return renderCSV(rows), ids
 }
 
 // ---------------------------------------------------------------------
@@ -703,7 +766,7 @@ func capPick(t *rapid.T, label string, pool []int, n1 int) int {
 
 func genCaseFor(t *rapid.T, cli bool) detCase {
 	c := detCase{CLI: cli}
-	c.N1 = fw.PickU(t, "n1", sizeClasses)
+	c.N1 = drawN1(t)
 	c.N2 = capPick(t, "n2", partnerSizes, c.N1)
 	c.N3 = capPick(t, "n3", targetSizes, c.N1)
 	seed := rapid.Uint64().Draw(t, "dataSeed")
@@ -717,10 +780,13 @@ func genCaseFor(t *rapid.T, cli bool) detCase {
 		{Name: "t3.csv", Rows: c.N3, CSV: t3csv},
 		{Name: "t4.csv", Rows: c.N1, CSV: makeT4(r, c.N1)},
 	}
-	c.CPUs = cpuSettings
+	c.CPUs = drawCPUs(t)
 	c.R = 3
 	if fw.Tier() == "thorough" {
 		c.R = 10
+	}
+	if c.N1 >= 1279 && fw.Tier() != "thorough" {
+		c.R = 2 // the largest tables cost the most: one repeat less in the quick tier
 	}
 	if cli {
 		c.R = 2
@@ -759,8 +825,19 @@ func genCaseFor(t *rapid.T, cli bool) detCase {
 	return c
 }
 
-func genCase(t *rapid.T) detCase    { return genCaseFor(t, false) }
-func genCLICase(t *rapid.T) detCase { return genCaseFor(t, true) }
+func genCase(t *rapid.T) detCase { return genCaseFor(t, false) }
+
+// cliFormats: the --format values of the result sets (CSV twice as often: it was the only one before).
+var cliFormats = []string{"CSV", "CSV", "TSV", "FIXED", "JSON", "JSONL", "LTSV", "GFM", "ORG", "BOX", "TEXT"}
+
+func genCLICase(t *rapid.T) detCase {
+	c := genCaseFor(t, true)
+	c.OutFmt = fw.PickU(t, "outFormat", cliFormats)
+	if fw.Pct(t, "outFile", 35) {
+		c.OutTo = "result.out"
+	}
+	return c
+}
 
 // ---------------------------------------------------------------------
 // execution
@@ -828,7 +905,7 @@ func runInProcess(c detCase, dir string, cpu int) (runOut, error) {
 	if err := resetDir(dir, c); err != nil {
 		return out, err
 	}
-	s, err := run.NewSess(run.Opt{Dir: dir, CPU: cpu, WaitTimeout: 10 * time.Minute})
+	s, err := run.NewSess(run.Opt{Dir: dir, CPU: cpu, WaitTimeout: 10 * time.Minute, Stdin: c.Stdin, HasStdin: c.Stdin != ""})
 	if err != nil {
 		return out, err
 	}
@@ -990,6 +1067,26 @@ func classesOf(c detCase) []string {
 	}
 	cl = append(cl, fnTags(c)...)
 	cl = append(cl, prefixTags(c, "dupkey:")...)
+	cl = append(cl, prefixTags(c, "nested:")...)
+	cl = append(cl, prefixTags(c, "errat:")...)
+	cl = append(cl, prefixTags(c, "errsrc:")...)
+	cl = append(cl, prefixTags(c, "src:")...)
+	cl = append(cl, prefixTags(c, "out:")...)
+	// the goroutine counts a task manager over all of t1 is given by the settings of this case
+	seen := map[int]bool{}
+	for _, cpu := range c.CPUs {
+		k := c.N1 / query.MinimumRequiredPerCPUCore
+		if cpu < k {
+			k = cpu
+		}
+		if k < 1 {
+			k = 1
+		}
+		if !seen[k] {
+			seen[k] = true
+			cl = append(cl, fmt.Sprintf("t1_goroutines:%d", k))
+		}
+	}
 	return cl
 }
 
@@ -1010,17 +1107,20 @@ func prefixTags(c detCase, prefix string) []string {
 	return out
 }
 
-func checkCase(c detCase) (fw.Outcome, *fw.Violation) {
+// differential runs the program of c in-process under every setting and compares every run with
+// the first run of the first setting. It returns the reference run and the number of compared runs
+// in which a task manager with more than one goroutine was seen.
+func differential(c detCase) (fw.Outcome, runOut, int, *fw.Violation) {
 	o := fw.Outcome{Classes: classesOf(c)}
+	var ref runOut
 	if len(c.CPUs) == 0 || c.R < 1 || len(c.Procs) == 0 {
-		return o, fw.Harness("malformed case")
+		return o, ref, 0, fw.Harness("malformed case")
 	}
 	dir := caseDir()
 	defer os.RemoveAll(dir)
 	prev := runtime.GOMAXPROCS(0)
 	defer runtime.GOMAXPROCS(prev)
 
-	var ref runOut
 	runs, compared, divergent := 0, 0, 0
 	parallelRuns := 0
 	var viol *fw.Violation
@@ -1030,7 +1130,7 @@ func checkCase(c detCase) (fw.Outcome, *fw.Violation) {
 			runtime.GOMAXPROCS(procs)
 			out, err := runInProcess(c, dir, cpu)
 			if err != nil {
-				return o, fw.Harness("%v\nprogram:\n%s", err, program(c))
+				return o, ref, 0, fw.Harness("%v\nprogram:\n%s", err, program(c))
 			}
 			runs++
 			if si == 0 && k == 0 {
@@ -1054,6 +1154,13 @@ func checkCase(c detCase) (fw.Outcome, *fw.Violation) {
 	fw.AddExtra("runs", int64(runs))
 	if viol != nil {
 		viol.Msg += fmt.Sprintf("\n(%d of %d compared runs diverged from the reference)", divergent, compared)
+	}
+	return o, ref, parallelRuns, viol
+}
+
+func checkCase(c detCase) (fw.Outcome, *fw.Violation) {
+	o, ref, parallelRuns, viol := differential(c)
+	if viol != nil {
 		return o, viol
 	}
 	if ref.Err != "" {
@@ -1080,9 +1187,9 @@ func checkCase(c detCase) (fw.Outcome, *fw.Violation) {
 
 func TestC12InProcess(t *testing.T) {
 	fw.Run(t, fw.Spec[detCase]{
-		ID: "C12", Name: "in_process", Quick: 240, Thorough: 4800,
+		ID: "C12", Name: "in_process", Quick: 220, Thorough: 4800,
 		Gen: genCase, Check: checkCase,
-		Rule: "three CSV tables (t1 from the threshold-straddling size classes 5..1000, join partner t2, DML target t3; contents expanded from one drawn seed) and a program of 1-3 queries (filter, every join kind, GROUP BY with aggregates incl. LISTAGG/JSON_AGG, DISTINCT, set operators, ORDER BY with ties and LIMIT/OFFSET, 1-4 analytic functions, subqueries) plus 0-2 of INSERT..SELECT / UPDATE / DELETE / REPLACE each followed by SELECT * of its target, then COMMIT; the program runs in-process with cpu in {1,2,3,4,8,16} x r runs (quick 3, thorough 10) under a drawn cycle of GOMAXPROCS values; every run must give the result sets (header, rows, row order; text and NULL-ness), the error and the bytes of every file of the first cpu=1 run; non-trivial = the verif counter saw a task manager with >1 goroutine in a non-reference run; distinct by (operator kinds, size class of t1)",
+		Rule: "four CSV tables (t1 from the threshold-straddling size classes 5..1000 and, with lower weight, 299/300/301 around the loader's prepared capacity, 639/640/641 where 8 goroutines start and 1279/1280/1281/1700 where 16 goroutines start; join partner t2, DML target t3, t4 for the function sweep; contents expanded from one drawn seed) and a program of 1-3 queries (filter, every join kind, GROUP BY with aggregates incl. LISTAGG/JSON_AGG, DISTINCT, set operators, ORDER BY with ties and LIMIT/OFFSET, 1-4 analytic functions, subqueries, user-defined functions and aggregates, a sweep over the built-in scalar functions) plus 0-2 of INSERT..SELECT / UPDATE / DELETE / REPLACE each followed by SELECT * of its target, then COMMIT; the program runs in-process with cpu in {1, 2, three drawn values of 3..15, 16} x r runs (quick 3 - 2 from 1279 rows on -, thorough 10) under a drawn cycle of GOMAXPROCS values; every run must give the result sets (header, rows, row order; text and NULL-ness), the error and the bytes of every file of the first cpu=1 run; non-trivial = the verif counter saw a task manager with >1 goroutine in a non-reference run; distinct by (operator kinds, size class of t1); the classes t1_goroutines:N list the goroutine counts a task manager over all of t1 is given under the settings of the case",
 		Assumptions: []string{
 			"goroutine schedules are sampled (r runs per setting, GOMAXPROCS varied): no divergence in r runs is not a proof",
 			"cells are compared by text and NULL-ness, not by csvq value type",
@@ -1107,17 +1214,37 @@ func runCLI(bin string, c detCase, dir string, cpu int, procs int, timeout time.
 	home := filepath.Join(fw.WorkDir(), "clihome")
 	_ = os.MkdirAll(home, 0755)
 	r := run.CLI(run.CLIOpt{Bin: bin, Dir: dir, Home: home, Timeout: timeout,
-		Args: []string{"--cpu", fmt.Sprint(cpu), "-f", "CSV", "-q", "-s", src},
+		Args: cliArgs(c, cpu, src),
 		Env:  []string{fmt.Sprintf("GOMAXPROCS=%d", procs)}})
 	out.Stdout, out.Stderr, out.Code = r.Stdout, r.Stderr, r.Code
 	out.Files = run.Snapshot(dir)
 	return out, r, nil
 }
 
+func cliArgs(c detCase, cpu int, src string) []string {
+	f := c.OutFmt
+	if f == "" {
+		f = "CSV"
+	}
+	args := []string{"--cpu", fmt.Sprint(cpu), "-f", f, "-q"}
+	if c.OutTo != "" {
+		args = append(args, "-o", c.OutTo)
+	}
+	return append(args, "-s", src)
+}
+
 func checkCLICase(c detCase) (fw.Outcome, *fw.Violation) {
 	o := fw.Outcome{Classes: classesOf(c)}
 	if len(c.CPUs) == 0 || c.R < 1 || len(c.Procs) == 0 {
 		return o, fw.Harness("malformed case")
+	}
+	if c.OutFmt != "" {
+		o.Classes = append(o.Classes, "format:"+c.OutFmt)
+	}
+	if c.OutTo != "" {
+		o.Classes = append(o.Classes, "result_sets_to:file")
+	} else {
+		o.Classes = append(o.Classes, "result_sets_to:stdout")
 	}
 	bin, err := run.Binary(fw.WorkDir(), false)
 	if err != nil {
@@ -1212,7 +1339,7 @@ func TestC12CLI(t *testing.T) {
 	fw.Run(t, fw.Spec[detCase]{
 		ID: "C12", Name: "cli", Quick: 24, Thorough: 480,
 		Gen: genCLICase, Check: checkCLICase,
-		Rule:        "the same generator; the program is run by the csvq binary as `csvq --cpu N -f CSV -q -s prog.sql` for N in {1,2,3,4,8,16} x r runs (quick 2, thorough 4) with the GOMAXPROCS environment variable varied; stdout, stderr, exit code and the bytes of every file in the repository after the run must equal those of the first --cpu 1 run; non-trivial = an in-process run of the same program at cpu 16 used a task manager with >1 goroutine; distinct by (operator kinds, size class of t1)",
+		Rule:        "the same generator; the program is run by the csvq binary as `csvq --cpu N -f FORMAT -q [-o result.out] -s prog.sql` with FORMAT drawn from CSV, TSV, FIXED, JSON, JSONL, LTSV, GFM, ORG, BOX, TEXT and the result sets going to stdout or (35%) to a file, for N in {1, 2, three drawn values of 3..15, 16} x r runs (quick 2, thorough 4) with the GOMAXPROCS environment variable varied; stdout, stderr, exit code and the bytes of every file in the repository after the run must equal those of the first --cpu 1 run; non-trivial = an in-process run of the same program at cpu 16 used a task manager with >1 goroutine; distinct by (operator kinds, size class of t1)",
 		Assumptions: []string{"goroutine schedules are sampled", "a run that exceeds 60 s is repeated once with 240 s before it counts (loaded machine)"},
 	})
 }
